@@ -136,6 +136,7 @@ def sub_req(case):
         t = None
         err = None
         requested = list(outputs)
+        outputs_before = list(outputs)
         explicit_fee = isinstance(fee, int)
         with wh.ForcedRandom(rnd.get('randint'), rnd.get('dirichlet'), rnd.get('shuffle', 'identity')):
             try:
@@ -168,7 +169,11 @@ def sub_req(case):
                             raise WalletError('select_inputs did not return the funded outputs')
                     else:
                         ia = [(txid, n) for (txid, n), _ in sel]
+                    ia_before = list(ia)
                     t = w.send(outputs, input_arr=ia, broadcast=False, **kw)
+                    if len(ia) != len(ia_before) or any(a is not b for a, b in zip(ia, ia_before)):
+                        devs.append({'sig': 'argument|input_list_of_the_caller_changed|%s' % method,
+                                     'detail': {'before': len(ia_before), 'after': len(ia)}})
                     got = sorted((i.prev_txid.hex(), i.output_n_int) for i in t.inputs)
                     if got != sorted(op for op, _ in sel):
                         devs.append({'sig': 'inputs|explicit_input_list_not_spent_as_given|%s' % (
@@ -189,6 +194,10 @@ def sub_req(case):
             except (WalletError, TransactionError, ValueError, OverflowError, KeyError, IndexError, TypeError,
                     AttributeError, ZeroDivisionError) as e:
                 err = e
+        if outputs != outputs_before:
+            # the list of (address, amount) pairs belongs to the caller
+            devs.append({'sig': 'argument|output_list_of_the_caller_changed|%s' % method,
+                         'detail': {'before': [list(x) for x in outputs_before], 'after': [list(x) for x in outputs][:6]}})
         if t is None:
             return {'devs': devs, 'out': 'refused:' + type(err).__name__, 'states': [_skey(case)], 'trans': 1,
                     'traces': 1, 'nt': []}
@@ -250,7 +259,11 @@ def _judge(t, case, ledger, requested, own, net, explicit_fee, fee_req, method):
         in_sum += u['value']
         if int(i.value) != u['value']:
             dev('inputs|value_differs_from_ledger|%s' % tagm, outpoint=op, lib=i.value, ledger=u['value'])
-        if method not in EXPLICIT and u['conf'] < case['req']['min_confirms']:
+        need = case['req']['min_confirms']
+        if method == 'rbf_bump':
+            # an input that bumpfee() adds is chosen with that method's own documented default (min_confirms=1)
+            need = min(need, 1)
+        if method not in EXPLICIT and u['conf'] < need:
             dev('inputs|below_min_confirms|%s' % tagm, outpoint=op, conf=u['conf'])
     # ---- outputs: integers >= 0
     out_sum = 0
